@@ -385,12 +385,10 @@ nextIntermediate:
 		if err != nil {
 			continue
 		}
+		// The chains above an intermediate depend on the path below it (loop avoidance, path length
+		// constraints), so they must not be remembered per intermediate across different prefixes.
 		var childChains [][]*Certificate
-		childChains, ok := cache[intermediateNum]
-		if !ok {
-			childChains, err = intermediate.buildChains(cache, appendToFreshChain(currentChain, intermediate), opts)
-			cache[intermediateNum] = childChains
-		}
+		childChains, err = intermediate.buildChains(cache, appendToFreshChain(currentChain, intermediate), opts)
 		chains = append(chains, childChains...)
 	}
 
